@@ -116,6 +116,7 @@ package age
 //@   ensures#draws $draws == old($draws) + 1                                                                                     [C06]
 //@   ensures#frame r.theirPublicKey == old(r.theirPublicKey)                                                                     [C20]
 //@   fresh stanzas when err == nil
+//@   modifies $draws
 
 //@ func (*X25519Identity).unwrap(i, block) (fk, err)
 //@   requires block != nil && len(i.secretKey) == 32 && len(i.ourPublicKey) == 32
@@ -126,6 +127,7 @@ package age
 //@   ensures#nil err != nil ==> fk == nil                                                                                          [C01 C04]
 //@   ensures#wrongkey (block.Type == "X25519" && len(block.Args) == 1 && b64rawok(block.Args[0]) && len(unb64raw(block.Args[0])) == 32 && x25519ok(bytes(i.secretKey), unb64raw(block.Args[0])) && len(block.Body) == 32 && !openok(x25519Key(x25519(bytes(i.secretKey), unb64raw(block.Args[0])), unb64raw(block.Args[0]), bytes(i.ourPublicKey)), zeros(12), bytes(block.Body))) ==> err == ErrIncorrectIdentity   [C04]
 //@   ensures#ok err == nil ==> block.Type == "X25519" && len(fk) == 16 && bytes(fk) == open(x25519Key(x25519(bytes(i.secretKey), unb64raw(block.Args[0])), unb64raw(block.Args[0]), bytes(i.ourPublicKey)), zeros(12), bytes(block.Body))   [C01 C04]
+//@   ensures#frame i.secretKey == old(i.secretKey) && i.ourPublicKey == old(i.ourPublicKey)                                        [C20]
 //@   ensures#opens (block.Type == "X25519" && len(block.Args) == 1 && b64rawok(block.Args[0]) && len(unb64raw(block.Args[0])) == 32 && x25519ok(bytes(i.secretKey), unb64raw(block.Args[0])) && len(block.Body) == 32 && openok(x25519Key(x25519(bytes(i.secretKey), unb64raw(block.Args[0])), unb64raw(block.Args[0]), bytes(i.ourPublicKey)), zeros(12), bytes(block.Body))) ==> err == nil   [C01]
 //@   modifies nothing
 
@@ -142,6 +144,7 @@ package age
 //@   ensures#draws $draws == old($draws) + 1                                                                                       [C06 C10]
 //@   ensures#frame r.password == old(r.password) && r.workFactor == old(r.workFactor)                                               [C20]
 //@   fresh stanzas when err == nil
+//@   modifies $draws, $scryptcalls
 
 //@ func (*ScryptRecipient).WrapWithLabels(r, fileKey) (stanzas, labels, err)
 //@   requires 1 <= r.workFactor && r.workFactor <= 30
@@ -160,6 +163,7 @@ package age
 //@   ensures#nil err != nil ==> fk == nil                                                                                           [C01 C04]
 //@   ensures#bound (block.Type == "scrypt" && len(block.Args) == 2 && (!canondec(block.Args[1]) || atoi(block.Args[1]) > i.maxWorkFactor)) ==> err != nil && $scryptcalls == old($scryptcalls)   [C10 C14]
 //@   ensures#calls $scryptcalls <= old($scryptcalls) + 1                                                                            [C10 C14]
+//@   ensures#frame i.password == old(i.password) && i.maxWorkFactor == old(i.maxWorkFactor)                                         [C20]
 //@   ensures#wrongkey (err != nil && $scryptcalls == old($scryptcalls) + 1 && len(block.Body) == 32) ==> err == ErrIncorrectIdentity   [C04]
 //@   ensures#ok err == nil ==> block.Type == "scrypt" && len(fk) == 16 && bytes(fk) == open(scryptKeyOf(bytes(i.password), unb64raw(block.Args[0]), atoi(block.Args[1])), zeros(12), bytes(block.Body))   [C01 C04]
 //@   ensures#opens (block.Type == "scrypt" && len(block.Args) == 2 && b64rawok(block.Args[0]) && len(unb64raw(block.Args[0])) == 16 && canondec(block.Args[1]) && atoi(block.Args[1]) <= i.maxWorkFactor && len(block.Body) == 32 && openok(scryptKeyOf(bytes(i.password), unb64raw(block.Args[0]), atoi(block.Args[1])), zeros(12), bytes(block.Body))) ==> err == nil   [C01]
@@ -220,6 +224,8 @@ package age
 //@   call bech32.Decode#1 requires arg0 == s                                                                            [C09]
 //@   ensures#canon err == nil ==> r != nil && len(r.theirPublicKey) == 32 && hasprefix(s, "age") && at(s, 3) == 49 && (forall j in 0..len(s) :: 33 <= at(s, j) && at(s, j) <= 126) && (forall j in 4..len(s) :: at(s, j) != 49)   [C09 C17]
 //@   ensures#nil err != nil ==> r == nil                                                                                [C09 C14]
+//@   fresh r when err == nil
+//@   modifies nothing
 
 //@ func (*X25519Recipient).String(r) (s)
 //@   call bech32.Encode#1 requires arg0 == "age" && same(arg1, r.theirPublicKey)                                        [C09]
@@ -238,6 +244,8 @@ package age
 //@   call bech32.Decode#1 requires arg0 == s                                                                            [C09]
 //@   ensures#canon err == nil ==> i != nil && len(i.secretKey) == 32 && hasprefix(s, "AGE-SECRET-KEY-") && at(s, 15) == 49 && (forall j in 0..len(s) :: 33 <= at(s, j) && at(s, j) <= 126)   [C09 C18]
 //@   ensures#nil err != nil ==> i == nil                                                                                [C09 C14 C18]
+//@   fresh i when err == nil
+//@   modifies nothing
 
 //@ func (*X25519Identity).String(i) (s)
 //@   call bech32.Encode#1 requires arg0 == "AGE-SECRET-KEY-" && same(arg1, i.secretKey)                                 [C09]
@@ -273,3 +281,9 @@ package age
 //@   call fmt.Errorf#1 requires arg0 == "malformed recipient at line %d" && len(arg1) == 1 && unboxint(arg1[0]) == n && n == scanner.$ln   [C18]
 //@   ensures#all err == nil ==> len(recs) == keycount(id(scanner), scanner.$ln) && len(recs) >= 1 && (forall j in 0..len(recs) :: recs[j] != nil)   [C18]
 //@   ensures#nil err != nil ==> recs == nil                                                                      [C14 C18]
+
+//@ func (*X25519Identity).Unwrap(i, stanzas) (fk, err)
+//@   requires len(i.secretKey) == 32 && len(i.ourPublicKey) == 32 && (forall j in 0..len(stanzas) :: stanzas[j] != nil)
+//@   ensures#nil err != nil ==> fk == nil                                                                                           [C01 C04]
+//@   ensures#frame i.secretKey == old(i.secretKey) && i.ourPublicKey == old(i.ourPublicKey)                                         [C20]
+//@   modifies nothing
